@@ -586,3 +586,109 @@ def varpat_fns(text):
 def varpat_unit(text):
     body, fns = varpat_fns(text)
     return "use vstd::prelude::*;\nverus! {\n" + VARPAT_MODEL + body + vlib.verus_canary("canary_varpat", "x: u64", []) + "\n} // verus!\nfn main() {}\n", fns
+
+
+# ---- pattern_matches_arguments (whole) and the tuple arm of pattern_matches_value_with_semantics -------------------------------------------
+TUPLEPAT_MODEL = """
+pub struct PatternTuple(pub Vec<Pattern>);
+pub enum Pattern { Tuple(PatternTuple), Other(u64) }
+pub struct MechTuple { pub elements: Vec<Value> }
+pub enum Value { Tuple(MechTuple), Other(u64) }
+pub struct MechError { pub id: u64 }
+pub struct Interpreter { pub id: u64 }
+#[derive(Clone, Copy)]
+pub struct PatternMatchSemantics { pub id: u64 }
+// the environment of bindings: an abstract state the matcher reads and extends
+pub struct Environment { pub st: Ghost<int> }
+// the matcher on ONE (pattern, value) pair -- what pattern_matches_value / the recursive call returns, and the environment it leaves: arbitrary functions
+pub uninterp spec fn pm_res(pat: Pattern, v: Value, sem: u64, st: int) -> Option<bool>;       // None = error
+pub uninterp spec fn pm_env(pat: Pattern, v: Value, sem: u64, st: int) -> int;
+pub uninterp spec fn standard() -> u64;                                                          // PatternMatchSemantics::Standard
+#[verifier::external_body]
+pub fn pattern_matches_value(pattern: &Pattern, value: &Value, env: &mut Environment, p: &Interpreter) -> (r: Result<bool, MechError>)
+  ensures (match r { Ok(b) => pm_res(*pattern, *value, standard(), old(env).st@) == Some(b), Err(_) => pm_res(*pattern, *value, standard(), old(env).st@) is None }),
+    final(env).st@ == pm_env(*pattern, *value, standard(), old(env).st@),
+{ unimplemented!() }
+#[verifier::external_body]
+pub fn pattern_matches_value_with_semantics_rec(pattern: &Pattern, value: &Value, env: &mut Environment, p: &Interpreter, semantics: PatternMatchSemantics) -> (r: Result<bool, MechError>)
+  ensures (match r { Ok(b) => pm_res(*pattern, *value, semantics.id, old(env).st@) == Some(b), Err(_) => pm_res(*pattern, *value, semantics.id, old(env).st@) is None }),
+    final(env).st@ == pm_env(*pattern, *value, semantics.id, old(env).st@),
+{ unimplemented!() }
+pub open spec fn zip_len(a: int, b: int) -> int { if a <= b { a } else { b } }
+#[verifier::external_body]
+pub fn zip_count(a: usize, b: usize) -> (r: usize) ensures r == zip_len(a as int, b as int), { unimplemented!() }
+// ---- THE CONTRACT (C16: "an arm whose pattern matches the ARGUMENTS"): a tuple pattern matches a list of values iff there are as many element patterns as
+// values and every element pattern matches its value, tested left to right in ONE environment (so a variable bound by an earlier element constrains the
+// later ones); the first element that does not match (or fails) ends the test
+pub open spec fn all_match(pats: Seq<Pattern>, vals: Seq<Value>, k: int, sem: u64, st: int) -> (Option<bool>, int)
+  decreases pats.len() - k,
+{
+  if k < 0 || k >= pats.len() || k >= vals.len() { (Some(true), st) } else {
+    let st1 = pm_env(pats[k], vals[k], sem, st);
+    match pm_res(pats[k], vals[k], sem, st) {
+      None => (None, st1),
+      Some(b) => if b { all_match(pats, vals, k + 1, sem, st1) } else { (Some(false), st1) },
+    }
+  }
+}
+pub open spec fn tuple_match(pats: Seq<Pattern>, vals: Seq<Value>, sem: u64, st: int) -> (Option<bool>, int) {
+  if pats.len() != vals.len() { (Some(false), st) } else { all_match(pats, vals, 0, sem, st) }
+}
+pub open spec fn arguments_match(pattern: Pattern, args: Seq<Value>, st: int) -> (Option<bool>, int) {
+  if args.len() == 1 { (pm_res(pattern, args[0], standard(), st), pm_env(pattern, args[0], standard(), st)) } else {
+    match pattern { Pattern::Tuple(t) => tuple_match(t.0@, args, standard(), st), _ => (Some(false), st) }
+  }
+}
+pub open spec fn value_tuple_match(pats: Seq<Pattern>, v: Value, sem: u64, st: int) -> (Option<bool>, int) {
+  match v { Value::Tuple(t) => tuple_match(pats, t.elements@, sem, st), _ => (Some(false), st) }
+}
+pub open spec fn outcome(r: Result<bool, MechError>) -> Option<bool> { match r { Ok(b) => Some(b), Err(_) => None } }
+"""
+
+
+def _zip_loops(b, sem, whole):
+    """`for (a, b) in XS.iter().zip(YS.iter()) {` -> index loop over zip_count(XS.len(), YS.len()) with the invariant `what remains to be tested from here == the whole test`"""
+    def one(m):
+        a_, b_, xs, ys = m.group(1), m.group(2), m.group(3), m.group(4)
+        return ("let zn_ = zip_count(%s.len(), %s.len());\n      for z_ in 0..zn_\n"
+                "        invariant zn_ == zip_len(%s@.len() as int, %s@.len() as int), %s@.len() == %s@.len(),\n"
+                "          st0 == old(env).st@, %s == all_match(%s@, %s@, z_ as int, %s, env.st@),\n"
+                "      {\n        let %s = &%s[z_]; let %s = &%s[z_];" % (xs, ys, xs, ys, xs, ys, whole, xs, ys, sem, a_, xs, b_, ys))
+    return re.subn(r"for\s+\(\s*(\w+)\s*,\s*(\w+)\s*\)\s+in\s+([\w\.]+)\.iter\(\)\.zip\(\s*([\w\.]+)\.iter\(\)\s*\)\s*\{", one, b)
+
+
+def tuplepat_fns(text, features):
+    """(a) `pattern_matches_arguments` (whole body), (b) the arm `Pattern::Tuple(pattern_tuple) => {..}` of `pattern_matches_value_with_semantics` as
+    `fn tuple_arm(pattern_tuple, detached_value, env, p, semantics)`: `for (a, b) in XS.iter().zip(YS.iter())` -> index loop over min(len) (zip semantics),
+    `MResult<bool>` -> `Result<bool, MechError>`, `T.borrow()` on the tuple cell -> `&T`, the recursive call -> the stand-in `.._rec` (modular recursion);
+    cfg attributes evaluated for the default features"""
+    out, fns = "", []
+    sig, body = extract_fn(text, "pattern_matches_arguments")
+    b = apply_cfg(re.sub(r"//[^\n]*", "", body).replace("\r", ""), features).strip()[1:-1]
+    b, n = _zip_loops(b, "standard()", "arguments_match(*pattern, args@, st0)")
+    if n != 1 or re.search(r"\b(iter|zip)\b", b):
+        raise AnchorLost("pattern_matches_arguments: the element loop is outside the transcription rules")
+    out += ("fn pattern_matches_arguments(pattern: &Pattern, args: &Vec<Value>, env: &mut Environment, p: &Interpreter) -> (res: Result<bool, MechError>)\n"
+            "  ensures (outcome(res), final(env).st@) == arguments_match(*pattern, args@, old(env).st@),\n{\n  let ghost st0 = env.st@;\n" + b + "\n}\n")
+    fns.append("pattern_matches_arguments")
+    sig, body = extract_fn(text, "pattern_matches_value_with_semantics")
+    b = apply_cfg(re.sub(r"//[^\n]*", "", body).replace("\r", ""), features)
+    m = re.search(r"Pattern::Tuple\(\s*(\w+)\s*\)\s*=>\s*\{", b)
+    if not m:
+        raise AnchorLost("pattern_matches_value_with_semantics: the arm `Pattern::Tuple(..)` not found")
+    arm = b[m.end():match_brace(b, m.end() - 1) - 1]
+    pt = m.group(1)
+    arm = re.sub(r"\b(\w+)\.borrow\(\)", r"&\1", arm)
+    arm = arm.replace("pattern_matches_value_with_semantics(", "pattern_matches_value_with_semantics_rec(")
+    arm, n = _zip_loops(arm, "semantics.id", "value_tuple_match(%s.0@, detached_value, semantics.id, st0)" % pt)
+    if n != 1 or re.search(r"\b(iter|zip|borrow)\b", arm):
+        raise AnchorLost("pattern_matches_value_with_semantics: the tuple arm is outside the transcription rules")
+    out += ("fn tuple_arm(%s: &PatternTuple, detached_value: Value, env: &mut Environment, p: &Interpreter, semantics: PatternMatchSemantics) -> (res: Result<bool, MechError>)\n"
+            "  ensures (outcome(res), final(env).st@) == value_tuple_match(%s.0@, detached_value, semantics.id, old(env).st@),\n{\n  let ghost st0 = env.st@;\n" % (pt, pt) + arm + "\n}\n")
+    fns.append("tuple_arm")
+    return out, fns
+
+
+def tuplepat_unit(text, features):
+    body, fns = tuplepat_fns(text, features)
+    return "use vstd::prelude::*;\nverus! {\n" + TUPLEPAT_MODEL + body + vlib.verus_canary("canary_tuplepat", "x: u64", []) + "\n} // verus!\nfn main() {}\n", fns
